@@ -291,7 +291,7 @@ def mapRes : Res → Reply
 
 /-- identities answer: `[12] u32(n) (string blob, string comment)*` -/
 def encIdentities (ks : List (Bytes × Bytes)) : Bytes :=
-  12 :: putU32 ks.length ++ (ks.map fun k => putStr k.1 ++ putStr k.2).flatten
+  12 :: (putU32 ks.length ++ (ks.map fun k => putStr k.1 ++ putStr k.2).flatten)
 
 /-- `processRequestBytes` for a non-empty request -/
 def processRequest (ids : List Ident) (r : KR) (now : Int) (data : Bytes) : KR × Reply :=
@@ -372,20 +372,25 @@ def serve (ids : List Ident) (now : Int) : KR → List Frame → List (Option Re
 
 /-! ## client: request encoders, reply decoders -/
 
+def encExt (e : Bytes × Bytes) : Bytes := 255 :: (putStr e.1 ++ putStr e.2)
+
+def encExts : List (Bytes × Bytes) → Bytes
+  | [] => []
+  | e :: es => encExt e ++ encExts es
+
 def encConstraints (lifetime : Nat) (confirm : Bool) (exts : List (Bytes × Bytes)) : Bytes :=
-  (if lifetime != 0 then 1 :: putU32 lifetime else []) ++ (if confirm then [2] else []) ++
-    (exts.map fun e => 255 :: putStr e.1 ++ putStr e.2).flatten
+  (if lifetime != 0 then 1 :: putU32 lifetime else []) ++ ((if confirm then [2] else []) ++ encExts exts)
 
 def encAdd (pfx comment cons : Bytes) : Bytes :=
-  (if cons.isEmpty then 17 else 25) :: pfx ++ putStr comment ++ cons
+  (if cons.isEmpty then 17 else 25) :: (pfx ++ (putStr comment ++ cons))
 
 def encRemove (blob : Bytes) : Bytes := 18 :: putStr blob
 def encRemoveAll : Bytes := [19]
 def encLock (pw : Bytes) : Bytes := 22 :: putStr pw
 def encUnlock (pw : Bytes) : Bytes := 23 :: putStr pw
 def encList : Bytes := [11]
-def encSign (blob data : Bytes) (flags : Nat) : Bytes := 13 :: putStr blob ++ putStr data ++ putU32 flags
-def encExtension (typ contents : Bytes) : Bytes := 27 :: putStr typ ++ contents
+def encSign (blob data : Bytes) (flags : Nat) : Bytes := 13 :: (putStr blob ++ (putStr data ++ putU32 flags))
+def encExtension (typ contents : Bytes) : Bytes := 27 :: (putStr typ ++ contents)
 
 /-- `simpleCall`: success iff the reply's first byte is SSH_AGENT_SUCCESS -/
 def decSimple : Reply → Res
